@@ -292,6 +292,8 @@ STD_POOL = {'decimal': ['1.5', '-2', 'NaN', 3, 2.5, 'abc', '1e5'], 'fraction': [
                 'vol_list': [[1, 2], [[1], [2, 3]], [], 5, [[1], 'x'], [1, [2]]],
                 'vol_range': [[0, 10, 11], {'start': 0, 'end': 10, 'n': 6}, [[0, 10, 11]], [0, 10], 'x', [[0, 10, 11], [1, 2, 3]]],
                 'range_int': [[0, 10, 11], {'start': 0, 'end': 10, 'n': 6}, {'start': 0, 'end': 10, 'step': 2}, [0], 'x', {'start': 0}]}
+for _k in ('datetime', 'date', 'time'):
+    STD_POOL[_k] += [0, 1e20, 10 ** 30, -10 ** 30, 1.5, float('nan'), float('inf'), True, 253402300800, -62135596801]
 STD_POOL['pattern'] += ['x{1,4294967295}', '(?P<n>a)(?P<n>b)', 'a**', '(' * 120 + ')' * 120]
 STD_POOL['pattern_str'] += ['b{4294967296}', '[']
 STD_POOL['pattern_bytes'] += [b'[0-9]{1,4294967295}', b'[', 'text']
@@ -717,4 +719,35 @@ def raising_predicate_cases(rng):
         for v in ([1, 2], [], ['x'], 5):
             out.append((tl, v))
             out.append((('seq', 'list', tl), [v]))
+    return out
+
+
+def cond_on_converted_cases(rng):
+    """conditions over types whose conversion changes what the predicate sees: a set built from a sequence with repeats (its
+    length), a Decimal / Fraction read from text (its sign), a tuple read from a list, a dataclass read from a mapping.  Both
+    passes and from_data must judge the CONVERTED value.  (term, value) pairs."""
+    import terms
+    out = []
+    setint = ('seq', 'set', ('scalar', 'int'))
+    fs = ('seq', 'frozenset', ('scalar', 'int'))
+    rows = [
+        (('cond', setint, ('lenrange', 2, None)), [[1, 1], [1, 2], [1, 1, 2], [], [3, 3, 3]]),
+        (('cond', setint, ('lenrange', None, 1)), [[1, 1], [1, 2], [], [2, 2, 2]]),
+        (('cond', fs, ('adj', 'nonempty')), [[], [1, 1]]),
+        (('cond', fs, ('lenrange', 1, 1)), [[4, 4], [4, 5]]),
+        (('cond', ('std', 'decimal'), ('adj', 'positive')), ['1.5', '-2', '0', 3, 'abc']),
+        (('cond', ('std', 'decimal'), ('valrange', 0, 10)), ['1.5', '11', '-1', 5]),
+        (('cond', ('std', 'fraction'), ('adj', 'negative')), ['-1/3', '1/3', '0', 'x/y']),
+        (('cond', ('scalar', 'float'), ('adj', 'positive')), [1, 0, -1, True, 2.5]),
+        (('cond', ('scalar', 'complex'), ('adj', 'finite')), [1, 2.5]),
+        (('cond', ('seq', 'tuple', ('scalar', 'int')), ('lenrange', 2, 2)), [[1, 2], (1, 2), [1], [1, 2, 3]]),
+        (('cond', ('dict', ('scalar', 'str'), ('scalar', 'int')), ('lenrange', 1, None)), [{}, {'a': 1}]),
+    ]
+    for term, vals in rows:
+        holder = {'name': terms.fresh_name('Cc'), 'fields': [{'name': 'v', 'ty': term}], 'opts': {}, 'hook': None}
+        for v in vals:
+            out.append((term, v))
+            out.append((('seq', 'list', term), [v]))
+            out.append((('union', [term, ('scalar', 'str')]), v))
+            out.append((('class', holder), {'v': v}))
     return out
